@@ -205,16 +205,21 @@ def load_tree(tree):
     return out
 
 
-def run_observation(scn: dict, with_dask: bool, *, simulate: bool = True, forced=None, builder: str = "python", yaml_rng=None, keep_objects: bool = False, warmup: bool = False) -> dict:
+def run_observation(scn: dict, with_dask: bool, *, simulate: bool = True, forced=None, builder: str = "python", yaml_rng=None, keep_objects: bool = False, warmup: bool = False, objects=None) -> dict:
     """Run the scenario's observation; returns a record with result/exception/history/sim stats."""
     import pyxel
 
-    world.reset_process_state()
+    if objects is None:
+        world.reset_process_state()
+    else:
+        probes.HIST.clear()
     s = copy.deepcopy(scn)
     s["mode"]["with_dask"] = with_dask
     rec: dict[str, Any] = {"exc": None, "tree": None, "hist": None, "sim": None, "rng": None}
     try:
-        if builder == "yaml":
+        if objects is not None:
+            mode, det, pipe = objects  # history: the caller runs the very same objects again
+        elif builder == "yaml":
             mode, det, pipe = world.build_yaml(s, yaml_rng)
         else:
             mode, det, pipe = world.build_python(s)
